@@ -544,8 +544,44 @@ func init() {
 				}
 				dz := x.P.FnObj(dbPkg + ".(*ClientInfo).Deactivate")
 				for _, c := range callsToIn(bf, dz) {
-					x.rejectOn("func="+prog.FnName(bf)+" refuses-attached", c, Cmp{L: vpField(docStatus), R: vpStr(attached), Want: EQ})
-					x.rejectOn("func="+prog.FnName(bf)+" refuses-attaching", c, Cmp{L: vpField(docStatus), R: vpStr(attaching), Want: EQ})
+					for _, st := range []struct{ name, val string }{{"refuses-attached", attached}, {"refuses-attaching", attaching}} {
+						cmp := Cmp{L: vpField(docStatus), R: vpStr(st.val), Want: EQ}
+						key := "func=" + prog.FnName(bf) + " " + st.name
+						// the scan may live in a boolean helper of the package: hasAttached(clientInfo) — the edge on which the status is
+						// found cannot reach the helper's `return false`, and the helper's true edge cannot reach the deactivation
+						if seen, _ := cmpEdgeReaches(bf, cmp, func(*ssa.BasicBlock) bool { return false }); !seen {
+							via := ""
+							for _, hc := range prog.CallsIn(bf) {
+								h, isCall := hc.(*ssa.Call)
+								if !isCall || h.Call.StaticCallee() == nil || h.Call.StaticCallee().Pkg != bf.Pkg || len(h.Call.StaticCallee().Blocks) == 0 {
+									continue
+								}
+								H := h.Call.StaticCallee()
+								if H.Signature.Results().Len() != 1 || !isBoolType(H.Signature.Results().At(0).Type()) {
+									continue
+								}
+								hSeen, hBad := cmpEdgeReaches(H, cmp, func(b *ssa.BasicBlock) bool {
+									if len(b.Instrs) == 0 {
+										return false
+									}
+									r, isR := b.Instrs[len(b.Instrs)-1].(*ssa.Return)
+									return isR && len(r.Results) == 1 && !vpTrue.match(r.Results[0])
+								})
+								if !hSeen || hBad {
+									continue
+								}
+								isH := VP{"the helper's answer", func(w ssa.Value) bool { return prog.Strip(w) == ssa.Value(h) }}
+								if cSeen, cBad := cmpEdgeReaches(bf, isTrue(isH), func(b *ssa.BasicBlock) bool { return b == c.Block() }); cSeen && !cBad {
+									via = prog.FnName(H)
+								}
+							}
+							if via != "" {
+								x.hold(key, x.pos(c), "the scan is done by "+via+", whose true answer cannot reach the deactivation")
+								continue
+							}
+						}
+						x.rejectOn(key, c, cmp)
+					}
 				}
 				if len(callsToIn(bf, dz)) == 0 {
 					x.fail("func="+prog.FnName(bf)+" deactivates", x.fpos(bf), "DeactivateClient no longer marks the client deactivated")
@@ -632,6 +668,46 @@ func isAfterLoop(q, _ *ssa.Phi) bool {
 // comparison exists. This is the loop form of a guard ("for every element: if bad,
 // return an error"), for which a cut from the entry cannot work because the loop
 // may run zero times.
+// cmpEdgeReaches: from an edge of fn on which c holds, can a block satisfying target be reached without going round a loop
+// through the test again? seen reports whether the roles are tested at all.
+func cmpEdgeReaches(fn *ssa.Function, c Cmp, target func(*ssa.BasicBlock) bool) (seen, reaches bool) {
+	for _, b := range fn.Blocks {
+		iff := prog.IfOf(b)
+		if iff == nil {
+			continue
+		}
+		r, found := relOnTrue(iff.Cond, c.L, c.R, nil)
+		if !found {
+			continue
+		}
+		var bad *ssa.BasicBlock
+		switch {
+		case implies(r, c.Want):
+			bad = b.Succs[0]
+		case implies(negRel(r), c.Want):
+			bad = b.Succs[1]
+		default:
+			continue
+		}
+		seen = true
+		reach := map[*ssa.BasicBlock]bool{}
+		q := []*ssa.BasicBlock{bad}
+		for len(q) > 0 {
+			cb := q[len(q)-1]
+			q = q[:len(q)-1]
+			if reach[cb] || (cb != b && cb.Dominates(b)) || cb == b {
+				continue
+			}
+			reach[cb] = true
+			if target(cb) {
+				reaches = true
+			}
+			q = append(q, cb.Succs...)
+		}
+	}
+	return seen, reaches
+}
+
 func (x *Ctx) rejectOn(key string, site ssa.Instruction, c Cmp) bool {
 	fn := site.Parent()
 	seen, ok := false, true
